@@ -586,10 +586,15 @@ EXCL_THEOREMS = ["multichan_lock_exclusion", "multichan_reach_excl", "multichan_
                  "multichan_exactly_once_in_order", "multichan_exactly_once_in_order_states"]
 
 
+REF_THEOREMS = ["multichan_no_stranded", "multichan_quiescent_shape", "multichan_no_stranded_strong",
+                "multichan_stranded_is_strong", "multichan_wake_credit"]
+
+
 def run(ctx):
     ctx.trusted = TRUSTED
     core.coq_property(ctx, "Properties_C11.v", THEOREMS)
     core.coq_property(ctx, "Properties_C11_excl.v", EXCL_THEOREMS)
+    core.coq_property(ctx, "Properties_C11_ref.v", REF_THEOREMS)
     cases = gen_cases(ctx, ctx.tier)
     cor = corpus()
     allok = True
